@@ -9,6 +9,7 @@ from props import disview
 from props.C04 import independent_parameters
 
 V310 = sys.version_info >= (3, 10)
+PAIR = "(fun k' => match from_const cfg k' with OK p => OK (k', p) | Err e => Err e end)"
 V38 = sys.version_info >= (3, 8)
 CONST_POOL = [None, 0, 1, True, False, 1.0, 0.0, -0.0, "a", b"a", "", (1,), (True,), (1.0,), (0.0,), (-0.0,), ("a", b"a"), ..., 2 ** 70,
               float("inf"), frozenset([1, 2]), frozenset([1.0, 2]), 1j, complex(0.0, -0.0), "doc-like string"]
@@ -156,6 +157,14 @@ def work(ctx):
                          "ser_bool (list_eqb (fun (x y : vinstr const) => (v_op x =? v_op y) && val_match key_eqb (v_val x) (v_val y)) (data_view (cd_blocks d)) "
                          "(dis_view cfg code names varnames (cd_freevars d) cellvars consts [] 0)) | Err _ => [2] end)" % E.g_cd(d),
                          [1, 1, 1], "blocks_wf and K2 conclusion on %s" % what, "wf-monitor")
+                # premise (data_wf) and conclusion of the composed C03 theorem (lines included) on this data
+                ctx.case("(let d := %s in match mapM_cd PAIR d with OK d' => match encode_code cfg d' with OK code => "
+                         "match blocks_to_bytes pkey_eqb (fun k => is_str_const (fst k)) (KInner INone, PInner INone) (fun s => (KInner (IStr s), PInner (IStr s))) "
+                         "cfg (cd_blocks d') (cd_addargs d') (cd_freevars d') (cd_type d') with OK (_, _, _, _, _, kst) => "
+                         "ser_bool (data_wf cfg d') ++ ser_bool (view_agrees pkey_eqb (data_view (cd_blocks d')) (dis_view cfg (co_code code) (co_names code) "
+                         "(co_varnames code) (co_freevars code) (co_cellvars code) kst (raw_entries (co_linetable code)) (co_firstlineno code))) "
+                         "| Err _ => [2] end | Err _ => [3] end | Err _ => [4] end)".replace("PAIR", PAIR) % E.g_cd(d),
+                         [1, 1], "data_wf and composed K2 conclusion on %s" % what, "wf-monitor")
                 ncases += 1
             except E.Unsupported:
                 pass
